@@ -13,7 +13,7 @@ use uom::si::length::meter;
 pub fn def() -> PropDef {
     PropDef {
         id: "C15",
-        rule: "inputs: the point multisets of C14 (clouds, several tracks, degenerate families, exact duplicates, 0..2000 points; one case in five with the azimuths written in mixed turns - phi, phi - 2 pi, phi + 2 pi for the same place; sparse staircases on one circle through the origin with arc step 10-36 mm and z step 0-36 mm, i.e. neighbour distances on both sides of the 3 cm linkage, alone, in pairs and inside clouds) and track lists of 0..8 hook-built tracks with ties, plus tracks fitted from generated clusters; oracle: (1) multiset(points of all clusters) + multiset(remainder) == multiset(input) comparing r, phi, z by bits; (2) every cluster has >= 13 points; (3) every cluster is connected under single linkage at 3 cm (union-find with SpacePoint::distance, threshold 3 cm x (1 + 1e-9)); (4) multiset(primary tracks) + multiset(secondaries' tracks) + multiset(remainder) == input tracks (helix parameters and end parameters by bits), primary has >= 2 tracks; non-trivial = >= 1 cluster together with a non-empty remainder, duplicates in the input, or a primary vertex with a non-empty remainder; distinct by case hash",
+        rule: "inputs: the point multisets of C14 (clouds, several tracks, degenerate families, exact duplicates, 0..2000 points; one case in five with the azimuths written in mixed turns - phi, phi - 2 pi, phi + 2 pi for the same place; sparse staircases on one circle through the origin with arc step 10-36 mm and z step 0-36 mm, i.e. neighbour distances on both sides of the 3 cm linkage, alone, in pairs and inside clouds) and track lists of 0..8 hook-built tracks with ties, plus tracks fitted from generated clusters; oracle: (1) multiset(points of all clusters) + multiset(remainder) == multiset(input) comparing r, phi, z by bits; (2) every cluster has >= 13 points; (3) every cluster is connected under single linkage at 3 cm (union-find with SpacePoint::distance, threshold 3 cm x (1 + 1e-9)); (4) multiset(primary tracks) + multiset(secondaries' tracks) + multiset(remainder) == input tracks (helix parameters and end parameters by value: by bits, except that -0.0 and +0.0 are one value), primary has >= 2 tracks; non-trivial = >= 1 cluster together with a non-empty remainder, duplicates in the input, or a primary vertex with a non-empty remainder; distinct by case hash",
         assumptions: &["track identity is read through reconstruction::verif_hooks::helix_params"],
         run,
         replay,
@@ -97,9 +97,13 @@ fn clustering(c: &PointsCase, ev: &mut Ev) -> Outcome {
     Ok(())
 }
 
+/// Identity of a track as a value: its eight numbers, with the two zeros
+/// identified (x + 0.0 maps -0.0 to +0.0 and nothing else). `find_vertices`
+/// looks its tracks up with `==`, under which two tracks that differ only in
+/// the sign of a zero are the same track - and they are the same curve.
 fn track_key(t: &Track) -> [u64; 8] {
     let p = rh::helix_params(t);
-    [p[0].to_bits(), p[1].to_bits(), p[2].to_bits(), p[3].to_bits(), p[4].to_bits(), p[5].to_bits(), t.t_inner().to_bits(), t.t_outer().to_bits()]
+    [p[0], p[1], p[2], p[3], p[4], p[5], t.t_inner(), t.t_outer()].map(|x| (x + 0.0).to_bits())
 }
 
 pub fn vertex_partition(tracks: Vec<Track>, ev: &mut Ev) -> Result<bool, Fail> {
